@@ -186,6 +186,37 @@ def run(rep, facts, tier):
                 okb = False
     rep.check(okb, 'R04.4', 'handle_repair_data_send_worker/gap-sent', 'a recorded GAP (non-empty set or all-before bound) is always sent',
               'a GAP that was recorded for a requested sequence number is not sent on every path', rw.where())
+    # (b') independent of how the guard is written: once "everything before first_available is gone" was recorded, or the requested number itself was put into the
+    # GAP set, every feasible path to the return sends the GAP (store-aware path evaluation: is_some() of the recorded Some and is_empty() of a set just inserted into are known)
+    from rdv.sympath import SymPath
+    sp = SymPath(rw, fx)
+    recs = []
+    for bb, si, st in rw.statements():
+        if st['s'] == 'assign' and st['rv']['r'] == 'agg' and st['rv'].get('variant') == 'Some' and st['rv']['ops']:
+            v = og.of_operand(st['rv']['ops'][0], bb, si)
+            if has_field(v, 'first_seq') and has_field(v, 'history_buffer'):
+                recs.append(('all-before', bb, [('MessageBuilder::gap_msg_before',), ('remove_from_unsent_set_all_before',), ('Writer::send_message_to_readers',)]))
+    for bb, t in rw.calls():
+        r = callee_res(t)
+        if r.endswith('BTreeSet::<T, A>::insert') or (r.endswith('::insert') and 'BTreeSet' in r):
+            a = og.of_operand(t['args'][1], bb, 'term')
+            if has_call(a, 'first_unsent_change'):
+                recs.append(('requested-sn', bb, [('MessageBuilder::gap_msg',), ('Writer::send_message_to_readers',)]))
+    okp = len(recs) >= 2
+    why = ''
+    for kind, rb, needs in recs:
+        for ret in rw.return_blocks():
+            for path in sp.paths(rb, ret):
+                st_ = sp.run(path, 'term')
+                if st_.infeasible:
+                    continue
+                called = [strip_generics(callee_res(rw.blocks[x]['term'])) for x in path if rw.blocks[x]['term']['t'] == 'call']
+                for need in needs:
+                    if not any(any(c.endswith(n) for n in need) for c in called):
+                        okp = False
+                        why = '%s recorded in bb%d, but a path to the return avoids %s' % (kind, rb, need[0])
+    rep.check(okp, 'R04.4', 'handle_repair_data_send_worker/recorded-gap-goes-out', '%d record sites: every feasible path sends the GAP (and prunes the unsent set for the all-before case)' % len(recs),
+              'a request that can only be answered by a GAP is not answered on every path (%s): the number stays at the head of the unsent set and blocks every later repair for that reader' % why, rw.where())
     # DATA is the change get_by_sn(unsent_sn)
     for bb, t in sends:
         cc = og.of_operand(t['args'][1], bb, 'term')
